@@ -107,7 +107,7 @@ def taskAcc (J : Judge) (t : Pos × Option (Ty × Ty)) : Bool :=
 def taskUsed (J : Judge) (t : Pos × Option (Ty × Ty)) : Bool :=
   match t.2 with
   | none => false
-  | some (e, v) => J.acc e v && J.used e v
+  | some (e, v) => J.acc e v && J.used e v && !(t.1 == Pos.dflt)
 
 /-- A rejected value of this task cannot be decomposed. -/
 def NoDec (J : Judge) (t : Pos × Option (Ty × Ty)) : Prop :=
@@ -575,7 +575,7 @@ theorem mid_trichotomy (J : Judge) (a' : CallArgs) (slot : Pos) (preT postT : Li
   · -- the whole remaining value is accepted
     have hall : ∀ m ∈ rs, J.acc P m = true := by rw [hA] at hacc; simpa using hacc
     have h2 : fin = { hadError := !oth, usedAny := false, newArgs := none, isOv := isOv } := by
-      rw [hfin]; simp only [chkStep, hacc, if_true, hU, Bool.or_false]
+      rw [hfin]; simp only [chkStep, hacc, if_true, hU]
       rw [foldl_good J a' postT _ hpost]; simp [oth, Bool.not_and]
     cases ho : oth with
     | true =>
@@ -665,7 +665,8 @@ structure SlotOK (J : Judge) (a : CallArgs) (slot : Pos) (ms : List Ty) (s : OSi
   pack : ∀ b, s.bind a = some b → (∃ e ∈ b, e.2 = Pos.args) → ∀ i, slot = .idx i → i < idxCount b
   usedSlot : ∀ b, s.bind a = some b → ∀ e ∈ b, e.2 = slot → ∀ p, s.params.find? (·.name == e.1) = some p →
     ∀ m ∈ ms, J.used p.annot m = false
-  usedOther : ∀ b, s.bind a = some b → ∀ e ∈ b, e.2 ≠ slot → ∀ p, s.params.find? (·.name == e.1) = some p →
+  usedOther : ∀ b, s.bind a = some b → ∀ e ∈ b, e.2 ≠ slot → e.2 ≠ Pos.dflt →
+    ∀ p, s.params.find? (·.name == e.1) = some p →
     ∀ v, entryVal a b p e.2 = some v → J.used p.annot v = false
 
 section slot
@@ -709,9 +710,13 @@ theorem baseTask_good (C : UnionCtx J a slot ms) (hs : SlotOK J a slot ms s) {b 
         rcases entryVal_cases h0 with h1 | ⟨xs, rfl⟩
         · exact C.others w h1
         · rfl
-      have hu := hs.usedOther b hb e he hne p hf w hv
-      simp only [NoDec, taskUsed, ht, hu, Bool.and_false, and_true]
-      intro _; exact decompose_not_unionLike J _ hw
+      refine ⟨?_, ?_⟩
+      · simp only [NoDec, ht]
+        intro _; exact decompose_not_unionLike J _ hw
+      · by_cases hd : e.2 = Pos.dflt
+        · simp [taskUsed, ht, hd]
+        · have hu := hs.usedOther b hb e he hne hd p hf w hv
+          simp [taskUsed, ht, hu]
 
 theorem tasks_setAt_none (hs : SlotOK J a slot ms s) {b : List (String × Pos)} (hb : s.bind a = some b)
     (hnone : ∀ e ∈ b, (e.2 == slot) = false) (v : Ty) : tasks s (a.setAt slot v) b = tasks s a b := by
@@ -1298,6 +1303,93 @@ theorem bind_once {s : OSig} {a : CallArgs} {b : List (String × Pos)} (hb : s.b
     rw [hkw'] at h2
     cases hk : q.kind <;> simp [hk] at h2 <;> simp [hok.1, h2]
 
+theorem bindStep_pos (act : Actual) (hsa : act.starArgs = false) (hsk : act.starKw = false)
+    (st st' : BindSt) (p : Param) (h : bindStep act st p = some st') :
+    ∃ pos, st'.bound = st.bound ++ [(p.name, pos)] ∧
+      ((∃ i, pos = .idx i ∧ st.posIdx < act.pos.length ∧ st'.posIdx = st.posIdx + 1) ∨
+       (pos = .args ∧ st.posIdx < act.pos.length ∧ act.pos.length ≤ st'.posIdx) ∨
+       ((∀ i, pos ≠ .idx i) ∧ pos ≠ .args ∧ st'.posIdx = st.posIdx)) := by
+  unfold bindStep at h
+  cases hk : p.kind <;> simp only [hk, hsa, hsk] at h
+  all_goals (repeat' split at h)
+  all_goals (first | (simp at h; done) | skip)
+  all_goals (simp only [Option.some.injEq] at h; subst h)
+  all_goals (simp [BindSt.bind])
+  all_goals (first | omega | (simp_all; done) | (simp_all; omega) | exact Nat.le_max_right _ _)
+
+theorem idxCount_snoc (b : List (String × Pos)) (n : String) (pos : Pos) :
+    idxCount (b ++ [(n, pos)]) = idxCount b + (if isIdx pos then 1 else 0) := by
+  simp only [idxCount, List.filter_append, List.length_append]
+  cases h : isIdx pos <;> simp [h]
+
+def PackInv (len : Nat) (st : BindSt) : Prop :=
+  (st.posIdx < len → idxCount st.bound = st.posIdx) ∧
+  ((∃ e ∈ st.bound, e.2 = Pos.args) → len ≤ st.posIdx ∧ idxCount st.bound < len)
+
+theorem packInv_step (act : Actual) (hsa : act.starArgs = false) (hsk : act.starKw = false)
+    (st st' : BindSt) (p : Param) (h : bindStep act st p = some st') (hi : PackInv act.pos.length st) :
+    PackInv act.pos.length st' := by
+  obtain ⟨pos, hb, hcase⟩ := bindStep_pos act hsa hsk st st' p h
+  obtain ⟨h1, h2⟩ := hi
+  have hargs : (∃ e ∈ st'.bound, e.2 = Pos.args) ↔ ((∃ e ∈ st.bound, e.2 = Pos.args) ∨ pos = .args) := by
+    rw [hb]; constructor
+    · rintro ⟨e, he, hea⟩
+      rcases List.mem_append.mp he with he | he
+      · exact Or.inl ⟨e, he, hea⟩
+      · simp at he; subst he; exact Or.inr hea
+    · rintro (⟨e, he, hea⟩ | hp)
+      · exact ⟨e, by simp [he], hea⟩
+      · exact ⟨(p.name, pos), by simp, hp⟩
+  rcases hcase with ⟨i, rfl, hlt, hpi⟩ | ⟨rfl, hlt, hge⟩ | ⟨hni, hna, hpi⟩
+  · have hc : idxCount st'.bound = idxCount st.bound + 1 := by rw [hb, idxCount_snoc]; simp [isIdx]
+    refine ⟨fun _ => by rw [hc, h1 hlt, hpi], ?_⟩
+    rw [hargs]
+    rintro (hex | hp)
+    · have := (h2 hex).1; omega
+    · cases hp
+  · have hc : idxCount st'.bound = idxCount st.bound := by rw [hb, idxCount_snoc]; simp [isIdx]
+    refine ⟨fun hl => by omega, fun _ => ⟨hge, by rw [hc, h1 hlt]; exact hlt⟩⟩
+  · have hc : idxCount st'.bound = idxCount st.bound := by
+      rw [hb, idxCount_snoc]
+      cases pos <;> simp_all [isIdx]
+    refine ⟨fun hl => by rw [hc, hpi]; exact h1 (by omega), ?_⟩
+    rw [hargs, hc, hpi]
+    rintro (hex | hp)
+    · exact h2 hex
+    · exact absurd hp hna
+
+theorem packInv_fold (act : Actual) (hsa : act.starArgs = false) (hsk : act.starKw = false) :
+    ∀ (ps : List Param) (st st' : BindSt), ps.foldlM (bindStep act) st = some st' →
+      PackInv act.pos.length st → PackInv act.pos.length st'
+  | [], st, st', h, hi => by
+    simp only [List.foldlM_nil, Option.pure_def, Option.some.injEq] at h; subst h; exact hi
+  | p :: ps, st, st', h, hi => by
+    simp only [List.foldlM_cons, Option.bind_eq_bind] at h
+    cases h1 : bindStep act st p with
+    | none => simp [h1] at h
+    | some st1 =>
+      simp only [h1, Option.bind_some] at h
+      exact packInv_fold act hsa hsk ps st1 st' h (packInv_step act hsa hsk st st1 p h1 hi)
+
+/-- An `*args` entry exists only when some positional is left for the pack. -/
+theorem bind_args_nonempty {s : OSig} {a : CallArgs} {b : List (String × Pos)} (hb : s.bind a = some b)
+    (hargs : ∃ e ∈ b, e.2 = Pos.args) : idxCount b < a.pos.length := by
+  unfold OSig.bind pyaBind at hb
+  cases hf : s.shape.foldlM (bindStep a.actual) ({} : BindSt) with
+  | none => simp [hf] at hb
+  | some st' =>
+    simp only [hf, Option.bind_some] at hb
+    have hbd : b = st'.bound := by
+      unfold bindFinish at hb
+      repeat' split at hb
+      all_goals simp_all
+    have hinv := packInv_fold a.actual rfl rfl s.shape {} st' hf
+      ⟨fun _ => by simp [idxCount], fun ⟨e, he, _⟩ => by simp at he⟩
+    have hlen : a.actual.pos.length = a.pos.length := by simp [CallArgs.actual]
+    rw [hbd] at hargs ⊢
+    rw [← hlen]
+    exact (hinv.2 hargs).2
+
 /-! ## G. pyanalyze's judge (`liveJudge tbl`): side conditions from syntactic hypotheses -/
 
 theorem hasAnyL_eq_any : ∀ ts, hasAnyL ts = ts.any hasAny
@@ -1324,30 +1416,21 @@ structure PlainSig (s : OSig) : Prop where
   nodup : (s.params.map (·.name)).Nodup
   noVarKw : ∀ p ∈ s.params, p.kind ≠ .varKw
 
-/-- No check of this overload goes through Any when no argument mentions `Any` and the `*args`
-pack is not empty. -/
+/-- No check of a provided argument (or of a non-empty `*args` pack) goes through Any when no
+argument mentions `Any`. -/
 theorem task_ua_false (tbl : ClassTable) (hself : TupleSelf tbl = true) {s : OSig} (hs : PlainSig s)
     {a : CallArgs} (hnoAny : ∀ v ∈ a.vals, hasAny v = false) {b : List (String × Pos)}
-    (hb : s.bind a = some b) (hempty : emptyPack s a = false) {e : String × Pos} (he : e ∈ b) {p : OParam}
+    (hb : s.bind a = some b) {e : String × Pos} (he : e ∈ b) (hnd : e.2 ≠ Pos.dflt) {p : OParam}
     (hf : s.params.find? (·.name == e.1) = some p) {v : Ty} (hv : entryVal a b p e.2 = some v) :
     ua tbl p.annot v = false := by
   have hk := entry_kind hb hs.nodup he hf
   have hpm := List.mem_of_find?_eq_some hf
-  have htask : (e.2, some (p.annot, v)) ∈ tasks s a b := by
-    simp only [tasks, List.mem_map]
-    exact ⟨e, he, by simp [entryTask, hf, hv]⟩
-  have hnotEmpty : ∀ c, v ≠ .seq c [] := by
-    intro c hc
-    subst hc
-    unfold emptyPack at hempty
-    simp only [hb, List.any_eq_false] at hempty
-    have := hempty _ htask
-    simp at this
-  have hpack : ∀ xs, v = .seq C.tuple xs → (∀ x ∈ xs, x ∈ a.pos) → ua tbl (.generic C.tuple [p.ty]) v = false := by
-    intro xs hx hsub
+  have hpack : ∀ xs, v = .seq C.tuple xs → xs ≠ [] → (∀ x ∈ xs, x ∈ a.pos) →
+      ua tbl (.generic C.tuple [p.ty]) v = false := by
+    intro xs hx hne hsub
     subst hx
     cases xs with
-    | nil => exact absurd rfl (hnotEmpty C.tuple)
+    | nil => exact absurd rfl hne
     | cons x xs =>
       apply ua_pack tbl hself (hs.flat p hpm)
       rw [hasAnyL_eq_any]
@@ -1363,10 +1446,14 @@ theorem task_ua_false (tbl : ClassTable) (hself : TupleSelf tbl = true) {s : OSi
     have hann : p.annot = .generic C.tuple [p.ty] := by simp [OParam.annot, hkind]
     rw [hann]
     rcases hk with hk | hk
-    · rw [hk] at hv; simp only [entryVal, Option.some.injEq] at hv
-      exact hpack _ hv.symm (fun x hx => List.mem_of_mem_drop hx)
-    · rw [hk] at hv; simp only [entryVal, hkind, Option.some.injEq] at hv
-      exact hpack [] hv.symm (by simp)
+    · have hlt := bind_args_nonempty hb ⟨e, he, hk⟩
+      rw [hk] at hv; simp only [entryVal, Option.some.injEq] at hv
+      refine hpack _ hv.symm ?_ (fun x hx => List.mem_of_mem_drop hx)
+      intro h0
+      have := congrArg List.length h0
+      simp only [List.length_drop, List.length_nil] at this
+      omega
+    · exact absurd hk hnd
   | posOnly =>
     simp only [hkind] at hk
     have hann : p.annot = p.ty := by simp [OParam.annot, hkind]
@@ -1399,7 +1486,7 @@ theorem task_ua_false (tbl : ClassTable) (hself : TupleSelf tbl = true) {s : OSi
     · rw [hk] at hv; simp [entryVal, hkind] at hv
 
 theorem usedAnyIn_live_false (tbl : ClassTable) (hself : TupleSelf tbl = true) {s : OSig} (hs : PlainSig s)
-    {a : CallArgs} (hnoAny : ∀ v ∈ a.vals, hasAny v = false) (hempty : emptyPack s a = false) :
+    {a : CallArgs} (hnoAny : ∀ v ∈ a.vals, hasAny v = false) :
     usedAnyIn (liveJudge tbl) s a = false := by
   rw [usedAnyIn_eq]
   cases hb : s.bind a with
@@ -1414,8 +1501,10 @@ theorem usedAnyIn_live_false (tbl : ClassTable) (hself : TupleSelf tbl = true) {
     | some av =>
       obtain ⟨ann, v⟩ := av
       obtain ⟨p, hf, hv, rfl⟩ := entryTask_some htask
-      have := task_ua_false tbl hself hs hnoAny hb hempty he hf hv
-      simp [taskUsed, liveJudge, this]
+      by_cases hd : e.2 = Pos.dflt
+      · simp [taskUsed, hd]
+      · have := task_ua_false tbl hself hs hnoAny hb he hd hf hv
+        simp [taskUsed, liveJudge, this]
 
 theorem vals_setAt {a : CallArgs} {slot : Pos} {v w : Ty} (h : w ∈ (a.setAt slot v).vals) : w = v ∨ w ∈ a.vals := by
   cases slot with
@@ -1468,7 +1557,7 @@ theorem slot_shape {a : CallArgs} {slot : Pos} (hvalid : (a.get slot).isSome = t
 theorem slotOK_live (tbl : ClassTable) (hself : TupleSelf tbl = true) {s : OSig} (hs : PlainSig s)
     {a : CallArgs} {slot : Pos} {ms : List Ty} (hvalid : (a.get slot).isSome = true)
     (hnoAny : ∀ v ∈ a.vals, hasAny v = false) (hms : ∀ m ∈ ms, hasAny m = false)
-    (hempty : emptyPack s a = false) (hpack : unionInPack s (a.setAt slot (.union ms)) = false) :
+    (hpack : unionInPack s (a.setAt slot (.union ms)) = false) :
     SlotOK (liveJudge tbl) a slot ms s where
   once := by
     intro b hb
@@ -1512,8 +1601,8 @@ theorem slotOK_live (tbl : ClassTable) (hself : TupleSelf tbl = true) {s : OSig}
     rw [hann]
     exact ua_flat tbl (hs.flat p hpm) (hms m hm)
   usedOther := by
-    intro b hb e he _ p hf v hv
-    exact task_ua_false tbl hself hs hnoAny hb hempty he hf hv
+    intro b hb e he _ hd p hf v hv
+    exact task_ua_false tbl hself hs hnoAny hb he hd hf hv
 
 theorem plainSig_of (sigs : List OSig) (h : PlainSigs sigs = true) : ∀ s ∈ sigs, PlainSig s := by
   intro s hs
@@ -1583,18 +1672,14 @@ theorem live_int_str : liveTable.nominal false C.int C.str = false ∧ liveTable
 
 theorem slotOK_of (tbl : ClassTable) (hself : TupleSelf tbl = true) (sigs : List OSig) (a : CallArgs)
     (slot : Pos) (ms : List Ty) (hp : PlainSigs sigs = true) (h : OneUnion a slot ms)
-    (hD1 : D08_emptyVarPos sigs a = false)
     (hD2 : D08_unionInVarPos sigs (a.setAt slot (.union ms)) = false) :
     ∀ s ∈ sigs, SlotOK (liveJudge tbl) a slot ms s := by
   intro s hs
-  have he : emptyPack s a = false := by
-    simp only [D08_emptyVarPos, List.any_eq_false] at hD1
-    simpa using hD1 s hs
   have hu : unionInPack s (a.setAt slot (.union ms)) = false := by
     simp only [D08_unionInVarPos, List.any_eq_false] at hD2
     simpa using hD2 s hs
   exact slotOK_live tbl hself (plainSig_of sigs hp s hs) h.valid (noAny_vals h.noAny)
-    (by simpa using h.anyFree) he hu
+    (by simpa using h.anyFree) hu
 
 theorem unionCtx_of (tbl : ClassTable) (a : CallArgs) (slot : Pos) (ms : List Ty) (h : OneUnion a slot ms) :
     UnionCtx (liveJudge tbl) a slot ms :=
